@@ -58,3 +58,77 @@ register('C01', title='cycle table segmentation',
               'materialised case.',
          floors={'quick': {'nontrivial': 100, 'classes': {'tables_vs_reference': 100}}, 'thorough': {'nontrivial': 5000}},
          assumptions=PIPE_ASSUME, quick_shards=8, thorough_shards=16)
+
+register('C04', title='shape features = definitions',
+         deciding=['compute_shape_features', 'compute_features'],
+         rule='generated: C01 workload (asymmetric / noisy families over-sampled, sample columns mostly on) plus direct '
+              'compute_shape_features calls with n_cycles in {2,3,5}. Oracle: per row, every shape cell recomputed by a loop '
+              'reference from the row\'s own cyclepoints and the ORIGINAL signal (integers/voltages exact, the two fractions '
+              'within a few ulp), range clauses, band_amp = mean of an independent amp_by_time over [last, next). Non-trivial = '
+              'table with >= 3 rows and >= 1 row with time_rise != time_decay; distinct by SHA-1 of the case.',
+         floors={'quick': {'nontrivial': 100, 'classes': {'band_amp_rows': 1000, 'tables:trough': 50, 'tables:peak': 50}},
+                 'thorough': {'nontrivial': 5000}},
+         assumptions=PIPE_ASSUME + ['band_amp filter length = the n_cycles argument of compute_shape_features (3 through compute_features)'],
+         quick_shards=8, thorough_shards=16)
+
+register('C05', title='burst features = definitions',
+         deciding=['compute_amp_fraction', 'compute_amp_consistency', 'compute_period_consistency', 'compute_monotonicity'],
+         rule='generated: consistency-method workload with tie-rich quantised / clipped / plateau families over-sampled, both '
+              'centrings; directions both/next/last by direct calls on the shape table. Oracle: loop references (average rank by '
+              'counting, centring-dependent flank pairing, strict-step fractions over inclusive windows), a few ulp tolerance, '
+              'range clause when the flank voltages are positive; zero denominators are skipped and counted. Non-trivial = '
+              'table with >= 5 rows and a rank tie or a non-monotone step.',
+         floors={'quick': {'nontrivial': 100, 'classes': {'tables_with_rank_ties': 20, 'amp_consistency:trough:next': 20,
+                                                          'amp_consistency:peak:last': 20}},
+                 'thorough': {'nontrivial': 5000}},
+         assumptions=PIPE_ASSUME, quick_shards=8, thorough_shards=16)
+
+register('C06', title='consistency burst labels',
+         deciding=['detect_bursts_cycles'],
+         rule='synthetic adversarial tables (four feature columns with values in {0, t-eps, t, t+eps, 1, NaN}, 0..27 rows, all '
+              'min_n_cycles 0..n+1 incl. non-integer, thresholds partly defaulted); every qualifying pattern of length <= 8 '
+              '(11 thorough) x every m (exhaustive); tables from generated signals with thresholds equal to table cells; for each '
+              'table two raised threshold vectors (labels must be nested). Oracle: explicit scan, q = all four strictly above, '
+              'first/last never, maximal runs >= m kept. Non-trivial = >= 1 True and >= 1 False label and >= 1 cell exactly on a '
+              'threshold or NaN; distinct by SHA-1 of the table + thresholds.',
+         floors={'quick': {'nontrivial': 150, 'classes': {'cells_equal_threshold': 1000, 'nan_cells': 200, 'routing_tables': 50,
+                                                          'monotone_pairs': 500}},
+                 'thorough': {'nontrivial': 5000}},
+         assumptions=['documented defaults for missing threshold keys: 0, .5, .5, .8, min_n_cycles 3'],
+         quick_shards=8, thorough_shards=16)
+
+register('C07', title='amplitude burst labels',
+         deciding=['compute_burst_fraction', 'detect_bursts_amp', 'compute_features'],
+         rule='generated: amplitude-method workload on bursty families (burst on/offsets inside cycles), both centrings, '
+              'amp_threshes, burst_fraction_threshold in {0,.3,.5,.8,1,default}, the 4 routing cases of min_n_cycles, '
+              'min_burst_duration and filter_kwargs sometimes; plus synthetic burst_fraction columns with values on the threshold. '
+              'Oracle: independent run of the dual-threshold detector with the documented arguments -> inclusive-window fraction -> '
+              '>= threshold -> run filter with the documented count. Non-trivial = >= 1 cycle with 0 < fraction < 1 and both label '
+              'values present (pipeline) / a value exactly on the threshold and both labels present (synthetic).',
+         floors={'quick': {'nontrivial': 60, 'classes': {'routing_nontrivial': 15, 'tables_with_partial_cycles': 50,
+                                                         'routing:bk': 10, 'routing:thr': 10, 'routing:bkthr': 10,
+                                                         'routing:default': 10}},
+                 'thorough': {'nontrivial': 3000}},
+         assumptions=PIPE_ASSUME + ['with min_burst_duration given the sample-wise detector works by duration (min_n_cycles=None) '
+                                    'while the run filter still uses the cycle count'],
+         quick_shards=8, thorough_shards=16)
+
+register('C09', title='peak/trough mirror',
+         deciding=['compute_features'],
+         rule='metamorphic pairs: compute_features(sig, trough) vs the rename / negate / 1-x image of compute_features(-sig, peak), '
+              'all families and options, both burst methods; integers and labels exact, voltages exact, fractions within a few ulp; the '
+              'definitional oracles of C04/C05/C07 run on both members. Non-trivial = not a noiseless sine, >= 5 rows and >= 1 burst '
+              'label change between neighbouring cycles; distinct by SHA-1 of the case.',
+         floors={'quick': {'nontrivial': 40, 'classes': {'pairs_compared:cycles': 40, 'pairs_compared:amp': 40}},
+                 'thorough': {'nontrivial': 2000}},
+         assumptions=PIPE_ASSUME, quick_shards=8, thorough_shards=16)
+
+register('C10', title='amplitude / rate covariance',
+         deciding=['compute_features'],
+         rule='metamorphic triples: base run, signal x a (a = 2^k, k in -10..10), fs and band x c (c in {1/4,1/2,2,4}, filter length in '
+              'cycles, no durations in seconds); exact comparison (voltages x a exactly; band_amp within 1e-12). Non-trivial = >= 5 rows '
+              'and >= 1 burst cycle in the base run; distinct by SHA-1 of the case.',
+         floors={'quick': {'nontrivial': 50, 'classes': {'compared:amplitude': 100, 'compared:rate': 100}},
+                 'thorough': {'nontrivial': 2000}},
+         assumptions=PIPE_ASSUME + ['powers of two commute exactly with IEEE arithmetic (no under/overflow in the generated range)'],
+         quick_shards=8, thorough_shards=16)
